@@ -1,5 +1,5 @@
 (* TypingSound.v -- C05, the direction "ill-typed programs are never accepted", for whole expressions: every expression of the fragment
-   (literals, local variables, unary, binary incl. && ||, ternary, in any nesting) that the model of the translator accepts has a typing
+   (literals, local variables, objects by id, this, property reads o.p, subscripts o[i], casts, unary, binary incl. && ||, ternary, in any nesting) that the model of the translator accepts has a typing
    derivation in the declarative system spec/Typing.v. *)
 From QV Require Import model.Base model.Lang model.Types model.Tir model.Ceval model.Builder spec.Typing proofs.TypingProofs proofs.BuilderInv proofs.BuilderSafe.
 From Coq Require Import Arith Lia.
@@ -29,6 +29,8 @@ Qed.
 Lemma spec_unary_ecsd k a : spec_unary k (ecsd a) = spec_unary k a.
 Proof. destruct k; cbn [spec_unary]; rewrite ?concrete_ecsd; try reflexivity. destruct a; reflexivity. Qed.
 
+Lemma inl_inv0 {A B} (x y : A) : @inl A B x = inl y -> x = y.
+Proof. intros H. inversion H. reflexivity. Qed.
 Definition opnq (a : operand) : Prop := match a with OConst (CQString _) => False | _ => True end.
 Definition result_of (t : tkind) (d : tdesc) : Prop := concrete d = Some t.
 
@@ -39,13 +41,30 @@ Proof.
   - cbn. match goal with |- context [push_statement ?st ?s0] => destruct (push_statement st s0) as [[u| |x] s1] end; intros H; inversion H; reflexivity.
 Qed.
 
+(* the folder on ANY two constants (a QString constant, which only a cast produces, included): what it folds, the table admits *)
+Lemma fold_sound E b l r v : match b with BoLAnd | BoLOr => False | _ => True end -> fold_binary b l r = inl v ->
+  (exists t, spec_binary E (opclass_of b) (const_tdesc l) (const_tdesc r) = Some t /\ concrete (const_tdesc v) = Some t) \/ (l = CNull /\ r = CNull).
+Proof.
+  intros Hb Hf.
+  assert (Hq : (no_qstring l /\ no_qstring r) \/ (exists x, l = CQString x) \/ (exists x, r = CQString x)).
+  { destruct l; try (right; left; eexists; reflexivity); destruct r; try (right; right; eexists; reflexivity); left; split; exact I. }
+  destruct Hq as [[Hl Hr]|Hq].
+  - pose proof (const_dyn_agree E b l r Hl Hr Hb) as Ha. rewrite Hf in Ha. exact Ha.
+  - left. unfold fold_binary, eval_binary_arith, eval_binary_bitwise, eval_shift, eval_comparison in Hf.
+    destruct Hq as [[x ->]|[x ->]].
+    + destruct b; cbn [binop_class] in Hf; try contradiction; destruct r; try discriminate Hf;
+        apply inl_inv0 in Hf; subst v; exists T_BOOL; split; reflexivity.
+    + destruct b; cbn [binop_class] in Hf; try contradiction; destruct l; try discriminate Hf;
+        apply inl_inv0 in Hf; subst v; exists T_BOOL; split; reflexivity.
+Qed.
+
 (* a binary operator node (not && ||): what the builder accepts, the table admits, with the same result type *)
-Lemma visit_binary_sound E b l r s res s' : binop_class b <> KLogical -> opnq l -> opnq r ->
+Lemma visit_binary_sound E b l r s res s' : binop_class b <> KLogical ->
   visit_binary E b l r s = (V res, s') ->
   (exists t, spec_binary E (opclass_of b) (operand_tdesc l) (operand_tdesc r) = Some t /\ concrete (operand_tdesc res) = Some t)
   \/ (l = OConst CNull /\ r = OConst CNull).
 Proof.
-  intros Hk Hl Hr H. unfold visit_binary in H.
+  intros Hk H. unfold visit_binary in H.
   assert (Hdyn : emit_binary E b l r s = (V res, s') ->
                  exists t, spec_binary E (opclass_of b) (operand_tdesc l) (operand_tdesc r) = Some t /\ concrete (operand_tdesc res) = Some t).
   { intros He. rewrite emit_binary_unfold in He. cbv zeta in He. unfold mbind in He.
@@ -58,10 +77,9 @@ Proof.
   destruct r as [cr| | | |]; try (left; apply Hdyn; exact H).
   assert (Hf : of_ceval (fold_binary b cl cr) s = (V res, s')).
   { unfold fold_binary. destruct (binop_class b); try exact H. exfalso. apply Hk. reflexivity. }
-  pose proof (const_dyn_agree E b cl cr ltac:(destruct cl; try exact I; exact Hl) ltac:(destruct cr; try exact I; exact Hr)
-                ltac:(destruct b; try exact I; exfalso; apply Hk; reflexivity)) as Ha.
-  destruct (fold_binary b cl cr) as [v|e]; cbn [of_ceval] in Hf.
-  - inversion Hf; subst. destruct Ha as [[t [H1 H2]]|[-> ->]]; [left; exists t; auto|right; auto].
+  destruct (fold_binary b cl cr) as [v|e] eqn:Ef; cbn [of_ceval] in Hf.
+  - inversion Hf; subst.
+    destruct (fold_sound E b cl cr v ltac:(destruct b; try exact I; exfalso; apply Hk; reflexivity) Ef) as [[t [H1 H2]]|[-> ->]]; [left; exists t; auto|right; auto].
   - exfalso. destruct e; cbn in Hf; discriminate.
 Qed.
 
@@ -125,15 +143,29 @@ Inductive Typed (E : cenv) (G : string -> option tkind) : expr -> tdesc -> Prop 
 | TyLogical op b l r : bop_of op = Some b -> binop_class b = KLogical -> Typed E G l (DConcrete T_BOOL) -> Typed E G r (DConcrete T_BOOL) ->
     Typed E G (EBinary op l r) (DConcrete T_BOOL)
 | TyTernary c a b da db t d : Typed E G c (DConcrete T_BOOL) -> Typed E G a da -> Typed E G b db -> common_concrete E da db = Some t ->
-    concrete d = Some t -> Typed E G (ETernary c a b) d.
+    concrete d = Some t -> Typed E G (ETernary c a b) d
+(* the objects of the document, by id, and the object the binding belongs to *)
+| TyObject x c : G x = None -> assoc x (ce_objects E) = Some c -> Typed E G (EIdent x) (DConcrete (TPointer (NClass c)))
+| TyThis c n : ce_this E = Some (c, n) -> Typed E G EThis (DConcrete (TPointer (NClass c)))
+(* o.p read as a value: p is a readable property of the class of o (found in the class or an ancestor, see C17) *)
+| TyMember o p dobj ty cls dc pi d : Typed E G o dobj -> concrete dobj = Some ty -> class_of_type ty = Some cls -> get_property E cls p = Some (dc, pi) ->
+    pi_readable pi = true -> concrete d = Some (pi_type pi) -> Typed E G (EMember o p) d
+(* e as T: one of the documented casts *)
+| TyAs v path dv t d : Typed E G v dv -> annotated_type E path = Some t -> spec_castable E t (ecsd dv) = true -> concrete d = Some t -> Typed E G (EAs v path) d
+(* l[i] read as a value *)
+| TySubscript o ix dobj di e d : Typed E G o dobj -> Typed E G ix di -> spec_subscript dobj di = Some e -> concrete d = Some e -> Typed E G (ESubscript o ix) d.
 
-Fixpoint frag (env : lenv) (e : expr) : bool :=
+Fixpoint frag (E : cenv) (env : lenv) (e : expr) : bool :=
   match e with
   | EInt _ | EFloat _ | EStr _ | EBool _ | ENull => true
-  | EIdent x => match lenv_get env x with Some _ => true | None => false end
-  | EUnary _ a => frag env a
-  | EBinary _ l r => frag env l && frag env r
-  | ETernary c a b => frag env c && frag env a && frag env b
+  | EIdent x => match lenv_get env x with Some _ => true | None => match assoc x (ce_objects E) with Some _ => true | None => false end end
+  | EThis => true
+  | EUnary _ a => frag E env a
+  | EBinary _ l r => frag E env l && frag E env r
+  | ETernary c a b => frag E env c && frag E env a && frag E env b
+  | EMember o _ => frag E env o
+  | EAs v _ => frag E env v
+  | ESubscript o ix => frag E env o && frag E env ix
   | _ => false
   end.
 
@@ -227,44 +259,128 @@ Proof.
   - unfold fail. intros H. inversion H.
 Qed.
 
+(* what a fragment expression is translated to is never a bare namespace or type name *)
+Definition shape_ok (i : inter) : Prop := match i with IBuiltinNamespace _ | IType _ => False | _ => True end.
+Lemma frag_shape E env : forall e, frag E env e = true -> forall s i s', walk_expr E env e s = (V i, s') -> shape_ok i.
+Proof.
+  induction e as [x| |n|fb|str|bb| |es| |o IHo p|o IHo ix IHix|f IHf args|l IHl r IHr|op a IHa|op l IHl r IHr|v IHv ty|c IHc a IHa b IHb];
+    cbn [frag]; try discriminate; intros Hf s i s' H; cbn [walk_expr] in H.
+  - unfold process_identifier in H. destruct (lenv_get env x) as [[l k]|]; [inversion H; exact I|].
+    unfold ctx_get_ref in H. destruct (assoc x (ce_objects E)) as [c|]; [|discriminate Hf]. inversion H; exact I.
+  - destruct (ce_this E) as [[c n]|]; inversion H; exact I.
+  - minvn H a s1 E1. inversion H; exact I.
+  - inversion H; exact I.
+  - inversion H; exact I.
+  - inversion H; exact I.
+  - inversion H; exact I.
+  - (* member *) minvn H io s1 E1. pose proof (IHo Hf _ _ _ E1) as Sh.
+    assert (Hp : forall it k st, process_item_property E it p k st = (V i, s') -> shape_ok i).
+    { intros it k st Hq. unfold process_item_property in Hq. destruct (to_concrete_type (operand_tdesc it)); [|discriminate Hq].
+      destruct (class_of_type t); [|discriminate Hq]. destruct (get_property E n p) as [[dc pi]|]; [inversion Hq; exact I|].
+      destruct (get_methods E n p) as [[dc ms]|]; [inversion Hq; exact I|discriminate Hq]. }
+    destruct io; try contradiction; try discriminate H; try (eapply Hp; exact H); minvn H it s2 E2; eapply Hp; exact H.
+  - (* subscript *) minvn H io s1 E1. minvn H ok s2 E2. minvn H idx s3 E3. inversion H; exact I.
+  - minvn H arg s1 E1. destruct (uop_of op); [|discriminate H]. minvn H r s2 E2. inversion H; exact I.
+  - destruct (bop_of op) as [b|]; [|discriminate H]. destruct (binop_class b).
+    1,2,3,5: (minvn H lhs s1 E1; minvn H rhs s2 E2; minvn H it s3 E3; inversion H; exact I).
+    minvn H lhs s1 E1. minvn H ll s2 E2. minvn H rhs s3 E3. minvn H rl s4 E4. minvn H u1 s5 E5. minvn H u2 s6 E6. minvn H it s7 E7. inversion H; exact I.
+  - minvn H val0 s1 E1. minvn H t s2 E2. minvn H it s3 E3. inversion H; exact I.
+  - minvn H cond s1 E1. minvn H cl s2 E2. minvn H conseq s3 E3. minvn H ql s4 E4. minvn H alt s5 E5. minvn H al s6 E6. minvn H u1 s7 E7. minvn H it s8 E8.
+    inversion H; exact I.
+Qed.
+
+(* the object read by `.p` or `[i]`: what to_rvalue makes of the intermediate result (the arms of walk_expr spell it out case by case) *)
+Lemma noop_concrete E t d : pick_type_cast E t d = CNoop -> concrete d = Some t.
+Proof.
+  unfold pick_type_cast. destruct d as [| | | |k]; cbn [concrete].
+  - destruct (tkind_eqb t T_INT || tkind_eqb t T_UINT), (tkind_eqb t T_DOUBLE), (tkind_eqb t T_VOID); discriminate.
+  - destruct (tkind_eqb t T_STRING), (tkind_eqb t T_VOID); discriminate.
+  - destruct t as [n|n|u]; try discriminate; destruct (tkind_eqb _ T_VOID); discriminate.
+  - destruct t as [n|n|u]; try discriminate; destruct (tkind_eqb _ T_VOID); discriminate.
+  - unfold pick_concrete_type_cast. destruct (tkind_eqb t k) eqn:Eq; [apply tkind_eqb_eq in Eq; subst; reflexivity|].
+    destruct t as [[c|e|p]|[c|e|p]|u], k as [[c'|e'|p']|[c'|e'|p']|u']; intros H;
+      repeat match type of H with context [if ?c then _ else _] => destruct c end; discriminate H.
+Qed.
+
 Theorem rvalue_typed E env s0 : envwf (List.length (bs_locals s0)) env ->
-  forall e, frag env e = true -> forall s a s', Rel s0 s -> walk_rvalue E env e s = (V a, s') ->
-  Typed E (ctx_of env s0) e (operand_tdesc a) /\ opnq a.
+  forall e, frag E env e = true -> forall s a s', Rel s0 s -> walk_rvalue E env e s = (V a, s') ->
+  Typed E (ctx_of env s0) e (operand_tdesc a).
 Proof.
   intros Hw.
-  induction e as [x| |n|fb|str|bb| |es| |o p|o ix|f args|l r|op a IHa|op l IHl r IHr|v ty|c IHc a IHa b IHb];
+  induction e as [x| |n|fb|str|bb| |es| |o IHo p|o IHo ix IHix|f IHf args|l IHl r IHr|op a IHa|op l IHl r IHr|v IHv ty|c IHc a IHa b IHb];
     cbn [frag]; try discriminate; intros Hf s res s' HR H; unfold walk_rvalue in H; cbn [walk_expr] in H.
-  - (* identifier *)
-    destruct (lenv_get env x) as [[l k]|] eqn:El; [|discriminate].
-    unfold process_identifier in H. rewrite El in H. unfold mbind, ret in H. cbn [to_rvalue] in H. unfold visit_local_ref in H.
-    destruct (nth_error (bs_locals s) l) as [t|] eqn:En; [|discriminate]. inversion H; subst. cbn [operand_tdesc]. split; [|exact I].
-    apply TyLocal. unfold ctx_of. rewrite El. rewrite <- En. symmetry. apply Rel_local; [exact HR|]. eapply Hw. exact El.
+  - (* identifier: a local variable, or an object of the document *)
+    unfold process_identifier in H. destruct (lenv_get env x) as [[l k]|] eqn:El.
+    + unfold mbind, ret in H. cbn [to_rvalue] in H. unfold visit_local_ref in H.
+      destruct (nth_error (bs_locals s) l) as [t|] eqn:En; [|discriminate]. inversion H; subst. cbn [operand_tdesc].
+      apply TyLocal. unfold ctx_of. rewrite El. rewrite <- En. symmetry. apply Rel_local; [exact HR|]. eapply Hw. exact El.
+    + unfold ctx_get_ref in H. destruct (assoc x (ce_objects E)) as [c|] eqn:Eo; [|discriminate Hf].
+      unfold of_ref, mbind, ret in H. cbn [to_rvalue] in H. unfold ret in H. inversion H; subst. cbn [operand_tdesc].
+      apply TyObject; [unfold ctx_of; rewrite El; reflexivity|exact Eo].
+  - (* this *)
+    destruct (ce_this E) as [[c n]|] eqn:Et; [|discriminate H]. unfold mbind, ret in H. cbn [to_rvalue] in H. unfold ret in H. inversion H; subst.
+    cbn [operand_tdesc]. eapply TyThis. exact Et.
   - (* integer *)
     unfold visit_integer, mbind, ret, fail in H. destruct (Z.of_N n <=? I64_MAX)%Z; cbn [to_rvalue] in H; [|discriminate].
-    unfold ret in H. inversion H; subst. split; [constructor|exact I].
-  - unfold mbind, ret in H. cbn [to_rvalue] in H. unfold ret in H. inversion H; subst. split; [constructor|exact I].
-  - unfold mbind, ret in H. cbn [to_rvalue] in H. unfold ret in H. inversion H; subst. split; [constructor|exact I].
-  - unfold mbind, ret in H. cbn [to_rvalue] in H. unfold ret in H. inversion H; subst. split; [constructor|exact I].
-  - unfold mbind, ret in H. cbn [to_rvalue] in H. unfold ret in H. inversion H; subst. split; [constructor|exact I].
+    unfold ret in H. inversion H; subst. constructor.
+  - unfold mbind, ret in H. cbn [to_rvalue] in H. unfold ret in H. inversion H; subst. constructor.
+  - unfold mbind, ret in H. cbn [to_rvalue] in H. unfold ret in H. inversion H; subst. constructor.
+  - unfold mbind, ret in H. cbn [to_rvalue] in H. unfold ret in H. inversion H; subst. constructor.
+  - unfold mbind, ret in H. cbn [to_rvalue] in H. unfold ret in H. inversion H; subst. constructor.
+  - (* member: o.p *)
+    minvn H i s2 E0. minvn E0 io s1 E1. pose proof (frag_shape E env o Hf _ _ _ E1) as Sh.
+    assert (Hobj : exists obj k st, to_rvalue io s1 = (V obj, st) /\ process_item_property E obj p k st = (V i, s2)).
+    { destruct io; try contradiction; try discriminate E0.
+      - exists a, KRvalue, s1. split; [reflexivity|exact E0].
+      - minvn E0 it st E2. exists it, KLvalue, st. split; [exact E2|exact E0].
+      - minvn E0 it st E2. exists it, KRvalue, st. split; [exact E2|exact E0].
+      - minvn E0 it st E2. exists it, KRvalue, st. split; [exact E2|exact E0]. }
+    destruct Hobj as (obj & k & st & Eobj & Ep).
+    assert (Eo : walk_rvalue E env o s = (V obj, st)) by (unfold walk_rvalue, mbind; rewrite E1; exact Eobj).
+    pose proof (IHo Hf _ _ _ HR Eo) as To.
+    unfold process_item_property in Ep. pose proof (to_concrete_concrete (operand_tdesc obj)) as Hc.
+    destruct (to_concrete_type (operand_tdesc obj)) as [ty|]; [|discriminate Ep].
+    destruct (class_of_type ty) as [cls|] eqn:Ec; [|discriminate Ep].
+    destruct (get_property E cls p) as [[dc pi]|] eqn:Eg.
+    + unfold ret in Ep. inversion Ep; subst. cbn [to_rvalue] in H. unfold visit_object_property in H. cbn [pr_info] in H.
+      destruct (pi_readable pi) eqn:Er; cbn [negb] in H; [|discriminate H].
+      eapply TyMember; eauto. eapply emit_result_desc. exact H.
+    + destruct (get_methods E cls p) as [[dc ms]|]; [|discriminate Ep]. unfold ret in Ep. inversion Ep; subst. discriminate H.
+  - (* subscript: o[ix] *)
+    apply andb_prop in Hf. destruct Hf as [Fo Fi].
+    minvn H i s4 E0. minvn E0 io s1 E1. pose proof (frag_shape E env o Fo _ _ _ E1) as Sh.
+    minvn E0 ok s2 E2. minvn E0 idx s3 E3. change (walk_rvalue E env ix s2 = (V idx, s3)) in E3.
+    assert (Hobj : to_rvalue io s1 = (V (fst ok), s2)).
+    { destruct io; try contradiction; try discriminate E2.
+      - unfold ret in E2. inversion E2; reflexivity.
+      - minvn E2 it st E4. unfold ret in E2. inversion E2; subst. exact E4.
+      - minvn E2 it st E4. unfold ret in E2. inversion E2; subst. exact E4.
+      - minvn E2 it st E4. unfold ret in E2. inversion E2; subst. exact E4. }
+    assert (Eo : walk_rvalue E env o s = (V (fst ok), s2)) by (unfold walk_rvalue, mbind; rewrite E1; exact Hobj).
+    pose proof (IHo Fo _ _ _ HR Eo) as To.
+    assert (HR2 : Rel s0 s2) by (eapply Rel_trans; [exact HR|eapply Inv_rel; [apply Inv_walk_rvalue|exact Eo]]).
+    pose proof (IHix Fi _ _ _ HR2 E3) as Ti.
+    unfold ret in E0. inversion E0; subst. cbn [to_rvalue] in H. unfold visit_object_subscript in H. minvn H elem s5 E5.
+    pose proof (subscript_check_spec (fst ok) idx s4) as Hs. unfold succeeds in Hs. rewrite E5 in Hs. cbn [fst] in Hs.
+    eapply TySubscript; [exact To|exact Ti|symmetry; exact Hs|]. eapply emit_result_desc. exact H.
   - (* unary *)
     minvn H it s2 E0. minvn E0 arg s1 E1. change (walk_rvalue E env a s = (V arg, s1)) in E1.
-    destruct (IHa Hf _ _ _ HR E1) as [Ta Na].
+    pose proof (IHa Hf _ _ _ HR E1) as Ta.
     destruct (uop_of op) as [u|] eqn:Eu; [|discriminate E0].
     minvn E0 r s3 E2. unfold ret in E0. inversion E0; subst. cbn [to_rvalue] in H. unfold ret in H. inversion H; subst.
-    destruct (visit_unary_sound _ _ _ _ _ E2) as [t [H1 H2]]. split; [eapply TyUnary; eauto|]. eapply visit_unary_nq. exact E2.
+    destruct (visit_unary_sound _ _ _ _ _ E2) as [t [H1 H2]]. eapply TyUnary; eauto.
   - (* binary *)
     apply andb_prop in Hf. destruct Hf as [Fl Fr].
     destruct (bop_of op) as [b|] eqn:Eb; [|discriminate H].
     assert (Hnl : binop_class b <> KLogical ->
                   mbind (mbind (walk_rvalue E env l) (fun lhs => mbind (walk_rvalue E env r) (fun rhs => mbind (visit_binary E b lhs rhs) (fun it => ret (IItem it))))) to_rvalue s = (V res, s') ->
-                  Typed E (ctx_of env s0) (EBinary op l r) (operand_tdesc res) /\ opnq res).
+                  Typed E (ctx_of env s0) (EBinary op l r) (operand_tdesc res)).
     { intros Hk H'. minvn H' it s4 E0. minvn E0 lhs s1 E1. minvn E0 rhs s2 E2. minvn E0 r3 s3 E3.
       unfold ret in E0. inversion E0; subst. cbn [to_rvalue] in H'. unfold ret in H'. inversion H'; subst.
-      destruct (IHl Fl _ _ _ HR E1) as [Tl Nl].
+      pose proof (IHl Fl _ _ _ HR E1) as Tl.
       assert (HR1 : Rel s0 s1) by (eapply Rel_trans; [exact HR|eapply Inv_rel; [apply Inv_walk_rvalue|exact E1]]).
-      destruct (IHr Fr _ _ _ HR1 E2) as [Tr Nr].
-      split; [|eapply visit_binary_nq; eauto].
-      destruct (visit_binary_sound _ _ _ _ _ _ _ Hk Nl Nr E3) as [[t [H1 H2]]|[-> ->]].
+      pose proof (IHr Fr _ _ _ HR1 E2) as Tr.
+      destruct (visit_binary_sound _ _ _ _ _ _ _ Hk E3) as [[t [H1 H2]]|[-> ->]].
       - eapply TyBinary; eauto.
       - eapply TyNullNull; eauto. }
     destruct (binop_class b) eqn:Ek; try (apply Hnl; [discriminate|exact H]).
@@ -273,17 +389,29 @@ Proof.
     minvn E0 u1 s5 E5. minvn E0 u2 s6 E6. minvn E0 r3 s7 E7.
     unfold ret in E0. inversion E0; subst. cbn [to_rvalue] in H. unfold ret in H. inversion H; subst.
     change (walk_rvalue E env l s = (V lhs, s1)) in E1. change (walk_rvalue E env r s2 = (V rhs, s3)) in E3.
-    destruct (IHl Fl _ _ _ HR E1) as [Tl Nl].
+    pose proof (IHl Fl _ _ _ HR E1) as Tl.
     assert (HR2 : Rel s0 s2).
     { eapply Rel_trans; [exact HR|]. eapply Rel_trans; [eapply Inv_rel; [apply Inv_walk_rvalue|exact E1]|eapply Inv_rel; [apply Inv_mark_branch_point|exact E2]]. }
-    destruct (IHr Fr _ _ _ HR2 E3) as [Tr Nr].
+    pose proof (IHr Fr _ _ _ HR2 E3) as Tr.
     destruct (check_cond_bool _ _ _ _ E5) as [Bl _]. destruct (check_cond_bool _ _ _ _ E6) as [Br _].
     rewrite Bl in Tl. rewrite Br in Tr.
     destruct (visit_binary_logical_sound E _ _ _ _ _ _ _ _ E7) as [_ Hc].
-    split; [|eapply visit_binary_logical_nq; exact E7].
     assert (Hd : operand_tdesc res = DConcrete T_BOOL).
     { destruct (operand_tdesc res) eqn:Ed; cbn in Hc; try discriminate. inversion Hc. reflexivity. }
     rewrite Hd. eapply TyLogical; eauto.
+  - (* cast: v as T *)
+    minvn H i s4 E0. minvn E0 val0 s1 E1. change (walk_rvalue E env v s = (V val0, s1)) in E1.
+    pose proof (IHv Hf _ _ _ HR E1) as Tv.
+    minvn E0 t s2 E2. minvn E0 it s3 E3. unfold ret in E0. inversion E0; subst. cbn [to_rvalue] in H. unfold ret in H. inversion H; subst.
+    unfold process_type_annotation in E2. destruct (annotated_type E ty) as [t'|] eqn:Ea; [|discriminate E2]. unfold ret in E2. inversion E2; subst.
+    unfold visit_as in E3. cbv zeta in E3. rewrite ecs_tdesc' in E3.
+    pose proof (pick_type_cast_spec E t (ecsd (operand_tdesc val0))) as Hs.
+    destruct (pick_type_cast E t (ecsd (operand_tdesc val0))) eqn:Ep; cbn [negb] in Hs; try discriminate E3.
+    all: eapply TyAs; [exact Tv|exact Ea|symmetry; exact Hs|].
+    + unfold ret in E3. inversion E3; subst. rewrite ecs_tdesc'. apply noop_concrete with (E := E). exact Ep.
+    + eapply emit_result_desc. exact E3.
+    + eapply emit_result_desc. exact E3.
+    + eapply emit_result_desc. exact E3.
   - (* ternary *)
     apply andb_prop in Hf. destruct Hf as [Hf Fb]. apply andb_prop in Hf. destruct Hf as [Fc Fa].
     minvn H it s9 E0. minvn E0 cond s1 E1. minvn E0 cl s2 E2. minvn E0 conseq s3 E3. minvn E0 ql s4 E4.
@@ -291,27 +419,27 @@ Proof.
     unfold ret in E0. inversion E0; subst. cbn [to_rvalue] in H. unfold ret in H. inversion H; subst.
     change (walk_rvalue E env c s = (V cond, s1)) in E1. change (walk_rvalue E env a s2 = (V conseq, s3)) in E3.
     change (walk_rvalue E env b s4 = (V alt, s5)) in E5.
-    destruct (IHc Fc _ _ _ HR E1) as [Tc Nc].
+    pose proof (IHc Fc _ _ _ HR E1) as Tc.
     assert (HR2 : Rel s0 s2).
     { eapply Rel_trans; [exact HR|]. eapply Rel_trans; [eapply Inv_rel; [apply Inv_walk_rvalue|exact E1]|eapply Inv_rel; [apply Inv_mark_branch_point|exact E2]]. }
-    destruct (IHa Fa _ _ _ HR2 E3) as [Ta Na].
+    pose proof (IHa Fa _ _ _ HR2 E3) as Ta.
     assert (HR4 : Rel s0 s4).
     { eapply Rel_trans; [exact HR2|]. eapply Rel_trans; [eapply Inv_rel; [apply Inv_walk_rvalue|exact E3]|eapply Inv_rel; [apply Inv_mark_branch_point|exact E4]]. }
-    destruct (IHb Fb _ _ _ HR4 E5) as [Tb Nb].
+    pose proof (IHb Fb _ _ _ HR4 E5) as Tb.
     destruct (check_cond_bool _ _ _ _ E7) as [Bc _]. rewrite Bc in Tc.
     destruct (visit_ternary_sound _ _ _ _ _ _ _ _ _ _ E8) as [t [H1 H2]].
-    split; [eapply TyTernary; eauto|eapply visit_ternary_nq; exact E8].
+    eapply TyTernary; eauto.
 Qed.
 
 (* the statement for a translation that starts in the state the context is read from *)
 Corollary accepted_expression_is_typed E env s0 e a s' :
-  envwf (List.length (bs_locals s0)) env -> frag env e = true ->
+  envwf (List.length (bs_locals s0)) env -> frag E env e = true ->
   walk_rvalue E env e s0 = (V a, s') -> Typed E (ctx_of env s0) e (operand_tdesc a).
-Proof. intros Hw Hf H. exact (proj1 (rvalue_typed E env s0 Hw e Hf s0 a s' (Rel_refl s0) H)). Qed.
+Proof. intros Hw Hf H. exact (rvalue_typed E env s0 Hw e Hf s0 a s' (Rel_refl s0) H). Qed.
 
 (* ... and its contrapositive: an expression of the fragment with no typing derivation is never accepted *)
 Corollary ill_typed_expression_is_rejected E env s0 e :
-  envwf (List.length (bs_locals s0)) env -> frag env e = true ->
+  envwf (List.length (bs_locals s0)) env -> frag E env e = true ->
   (forall d, ~ Typed E (ctx_of env s0) e d) -> forall a s', walk_rvalue E env e s0 <> (V a, s').
 Proof. intros Hw Hf Hn a s' H. exact (Hn _ (accepted_expression_is_typed E env s0 e a s' Hw Hf H)). Qed.
 
@@ -322,9 +450,9 @@ Definition ex_state := {| bs_blocks := [block0]; bs_locals := [T_INT]; bs_nparam
 Definition ex_E := {| ce_classes := []; ce_enums := []; ce_objects := []; ce_this := None |}.
 Definition ex_expr := ETernary (EBinary BGt (EBinary BMul (EBinary BAdd (EInt 1) (EInt 2)) (EIdent "x")) (EInt 0)) (EIdent "x") (EUnary UMinus (EIdent "x")).
 Example typed_example :
-  envwf (List.length (bs_locals ex_state)) ex_env /\ frag ex_env ex_expr = true /\
+  envwf (List.length (bs_locals ex_state)) ex_env /\ frag ex_E ex_env ex_expr = true /\
   (exists a s', walk_rvalue ex_E ex_env ex_expr ex_state = (V a, s') /\ operand_tdesc a = DConcrete T_INT) /\
-  frag ex_env (EBinary BAdd (EInt 1) (EBool true)) = true /\
+  frag ex_E ex_env (EBinary BAdd (EInt 1) (EBool true)) = true /\
   fst (walk_rvalue ex_E ex_env (EBinary BAdd (EInt 1) (EBool true)) ex_state) = F.
 Proof.
   split. { intros x l k H. unfold ex_env in H. cbn [lenv_get] in H. destruct (String.eqb "x" x); [|discriminate H]. inversion H. apply le_n. }
